@@ -13,6 +13,7 @@ import PLS.Model.Completion
 import PLS.Model.Config
 import PLS.Model.Conc
 import PLS.Model.Conc10
+import PLS.Model.Locks
 import PLS.Generated
 import PLS.Spec.Pytest
 import Driver.Sexp
@@ -496,6 +497,35 @@ def replay (t : List String) : String :=
 
 end C10R
 
+/-! ### `q locks`: the recorded nestings against the discipline of `PLS.Props.C12` -/
+
+def parseCM (tok : String) : Option (Nat × Locks.Mode) :=
+  if tok.endsWith "R" then (tok.dropEnd 1).toString.toNat?.map (fun c => (c, Locks.Mode.R))
+  else if tok.endsWith "W" then (tok.dropEnd 1).toString.toNat?.map (fun c => (c, Locks.Mode.W))
+  else none
+
+/-- `locks <c:r,c:r,…> | <held+held>want> …`  →  `ok n` or the nestings that break the discipline -/
+def runLocks (t : List String) : String :=
+  match splitBar t with
+  | [rk, ns] =>
+    let table : List (Nat × Nat) := (rk.flatMap (fun x => x.splitOn ",")).filterMap (fun x =>
+      match x.splitOn ":" with
+      | [c, r] => some (c.toNat!, r.toNat!)
+      | _ => none)
+    let rank : Nat → Nat := fun c => ((table.find? (·.1 == c)).map (·.2)).getD 0
+    let nestings : List (String × Option Locks.Nesting) := ns.map (fun tok =>
+      match tok.splitOn ">" with
+      | [h, w] =>
+        (tok, match parseCM w with
+          | some want => some { held := (h.splitOn "+").filterMap parseCM, want := want }
+          | none => none)
+      | _ => (tok, none))
+    let bad := nestings.filter (fun p => match p.2 with
+      | some n => !Locks.nestingOK rank n
+      | none => true)
+    if bad.isEmpty then s!"ok {nestings.length}" else "BAD " ++ " ".intercalate (bad.map (·.1))
+  | _ => "BADLOCKS"
+
 def runQ (c : CaseSt) (t : List String) : String × CaseSt :=
   match runH c t with
   | some r => r
@@ -505,6 +535,7 @@ def runQ (c : CaseSt) (t : List String) : String × CaseSt :=
   match t with
   | "conc" :: rest => (runConc rest, c)
   | "conc10" :: rest => (C10R.replay rest, c)
+  | "locks" :: rest => (runLocks rest, c)
   | ["goto", p, l, ch] =>
     let (r, st) := st.goto (pathOf p) l.toNat! ch.toNat!
     upd (optDef r, st)
